@@ -401,7 +401,7 @@ impl World {
             let l = self.link.0.lock().unwrap();
             for d in 0..2 {
                 // (what a wedged sender has in flight sits in buffers the peer no longer reads)
-                if !l.dir[d].inflight.is_empty() && !l.dir[d].wedged {
+                if !l.dir[d].inflight.is_empty() && !l.dir[d].wedged && !l.dir[d].hold {
                     v.push(Action::Deliver(d));
                 }
             }
@@ -539,6 +539,10 @@ impl World {
                 if let Some(w) = d.send_waker.take() {
                     w.wake();
                 }
+            }
+            What::Hold { side, on } => {
+                self.log.app(AppEv::Note(format!("link from side {side}: deliveries {}", if on { "held" } else { "released" })));
+                self.link.0.lock().unwrap().dir[side].hold = on;
             }
             What::Wedge { side } => {
                 // no Fault event: by itself a sink that is not writable ends nothing (the cut points of C08 key on Fault events)
